@@ -53,6 +53,15 @@ CHECKS = {
                 note="Trusted: pbt/flatmodel.py; path outlines are taken from get_polygons (so the box of a scale_width=false path "
                      "under a magnified reference is judged against the magnified outline, see known finding C06-K1).",
                 technique="property-based testing (Hypothesis) against an independent min/max and hull-validity oracle over hand-flattened geometry"),
+    "C10": dict(level="exploration", design="4 C10",
+                text="One generated element of every kind under a generated sequence of 1-5 transforms (translate, scale of either "
+                     "sign, per-axis scale, mirror, rotate, transform) compared with 2x3 matrix arithmetic: polygon vertices, "
+                     "label/reference placement matrices, repetition vectors, flexpath structure (spine, widths, offsets, "
+                     "extensions, bend radius), robust-path evaluation, and path outlines where transform-then-outline is an "
+                     "identity.",
+                note="Trusted: pbt/flatmodel.py. X::transform is not required to move X.repetition. Bend radii are generated where "
+                     "'fits' is unambiguous.",
+                technique="property-based testing (Hypothesis) of transform sequences against affine-matrix arithmetic (algebraic/metamorphic oracle)"),
     "C11": dict(level="exploration", design="4 C11",
                 text="Generated repetitions of every kind (zero counts, negative/duplicate/zero vectors, explicit lists to "
                      "length 30) on every element kind are compared with my own enumeration: count, offsets, extrema, "
